@@ -70,6 +70,10 @@ CLAIMED = {
             "Theorems C11_store/C11_store_atomic/C11_setsent/C11_setsent_others hold for every file system, message, and crash point (k, j). The tie: each file-modifying operation (AddOut, ProcessInbound, SetUnread, SetSent) is executed by the real code under strace on every run and its calls on mailbox files must equal the model's; the model's crash states (quick: 24 write prefixes per store, thorough: every byte) are written to disk and the real recovery path (fresh DirHandler, Prepare, listings, GetInboundAnswer, GetOutbound) must load every folder, find older messages intact, the outbound message in exactly one folder, and answer 'already received' only for a complete copy.",
             "The file system semantics (open-truncate, append write, atomic rename within a directory) are the model's assumptions; durability (fsync, power-loss reordering) is outside the model; strace is part of the trusted base of this check.",
             "DESIGN.md section 6 C11"),
+    "C13": ("Coq proof of the AGWPE byte-level contract for all frames, all splits of the TNC->host stream, all caller buffer sizes and all write sequences + correspondence of the codec, constructors, filter and Read with the Go code and end-to-end scenarios against a scripted TNC",
+            "Theorems C13_codec/C13_reassemble/C13_read_prefix/C13_read_all/C13_filter/C13_write/C13_write_roundtrip/C13_too_long hold for every well-formed frame, every chunking, every buffer-size sequence and every list of writes. PARTIAL: the goroutine pipeline between the TNC reader and Conn.Read (demux queues, outstanding-frame pacing, timeouts) is not modelled (C13_pipeline_statement is a Prop); it is exercised per run by 60 (400) register/dial-or-accept/read/write/flush/close scenarios against a scripted TNC whose link delivers at most 1..64 bytes per read, judged by oracles written from the property text.",
+            "Four fix: commits (io.ReadFull for the data field, data-length limit, port number in frames, Read keeping the unread remainder) precede this check; two known findings (non-blocking Enqueue drops frames in a burst; Write waits for a non-zero outstanding count) are recorded. Schedules are sampled, not enumerated: the pipeline part is partial with respect to the Go scheduler.",
+            "DESIGN.md section 6 C13"),
 }
 
 NOT_YET = {}
